@@ -180,6 +180,15 @@ static void *reader(void *arg)
 static void *updater(void *arg)
 {
 	int u = (int)(long)arg, k, r;
+	if (use_sig) {
+		/* C19: the handler may also interrupt synchronize_rcu(); it needs a registered thread */
+		my_r = 0;
+		vrt_name(&URCU_TLS(rcu_reader).ctr, sizeof(unsigned long), "reader%d.ctr", vrt_self());
+		vrt_log("CALL register");
+		rcu_register_thread();
+		vrt_log("RET register");
+		vrt_set_sighandler(handler);
+	}
 	for (k = 1; k <= uops; k++) {
 		long call_time;
 		vrt_point();
@@ -196,6 +205,12 @@ static void *updater(void *arg)
 		vrt_point();
 		Y[u] = k;
 		vrt_log("DST Y%d %d", u, k);
+	}
+	if (use_sig) {
+		vrt_set_sighandler(NULL);
+		vrt_log("CALL unregister");
+		rcu_unregister_thread();
+		vrt_log("RET unregister");
 	}
 	return NULL;
 }
